@@ -1,5 +1,6 @@
 SPECIFICATION Spec
 CONSTANT Which = "linecomp"
 CONSTANT Tier = "thorough"
+CONSTANT LineAlgo = "prerepair"
 INVARIANT FindOKHolds
 CHECK_DEADLOCK FALSE
